@@ -170,3 +170,26 @@ def symbols_of(x):
             out.add(t.decl().name())
         stack.extend(t.children())
     return out
+
+
+def dof_precondition_violated(b, out):
+    """True iff the run raised ZeroDivisionError and the reference degrees of freedom are exactly 0
+    (reduced chi-square undefined: outside the precondition of C03/C13, not a defect)."""
+    from contracts import harness
+    from contracts.c02_objective import compare_solves, ref_penalties
+
+    if not (isinstance(out, Raised) and isinstance(out.exc, ZeroDivisionError)):
+        return False
+    ref = harness.Ref(b)
+    cfg = b.cfg
+    n_data = sum(len(ds.model_axis) * len(ds.global_axis) for ds in cfg.datasets)
+    n_free = sum(1 for p in b.scheme.parameters.all() if p.vary and p.expression is None)
+    n_clps = 0
+    n_pen = 0
+    for gname in dict.fromkeys(ds.group for ds in cfg.datasets):
+        rs = ref.solves(gname)
+        for r in rs:
+            n_clps += len(r["labels"])
+        if cfg.penalties:
+            n_pen += len(cfg.penalties) * (1 if ref.is_linked(gname) else sum(1 for ds in ref.group_datasets(gname) if not ds.global_megacomplexes))
+    return n_data + n_pen - n_free - n_clps == 0 or (cfg.penalties and n_data - n_free - n_clps <= 0 <= n_data + n_pen - n_free - n_clps)
